@@ -230,7 +230,7 @@ def run(tier, seed=0):
     for n in range(0, NTXT + 1): plan.append(('text:pattern', 'Lb', n))
     for n in range(0, NTXT + 1): plan.append(('text:multi', 'Lb', n))
     for n in range(0, NTXT + 1): plan.append(('text:recexpr', 'Lb', n))
-    for seed in MULTI_SEEDS: plan.append(('seeded-multi', 'Lb', seed))
+    for seed in (MULTI_SEEDS[:1] if tier == 'quick' else MULTI_SEEDS): plan.append(('seeded-multi', 'Lb', seed))
     for kind, lang, n in plan:
         before = stats['paths']; nf = len(findings); t1 = time.time()
         try:
